@@ -24,7 +24,8 @@ RULE = ("one evaluation = one seeded history (<= 40 operations) on a long-lived 
 STATE_MEASURE = "distinct (feature, present emodulus keys, temp feature present, cached before?, last edited key) tuples"
 PROBES = ["read_cached_then_config_changed", "key_deleted_after_read", "emodulus_case_A", "emodulus_case_B", "emodulus_case_C",
           "viscosity_changed_while_temperature_present", "temp_feature_replaced", "plugin_read", "unavailable_read_raises",
-          "child_after_refresh", "file_backed", "scenario_switch", "ml_score_replaced", "temperature_zero"]
+          "child_after_refresh", "file_backed", "scenario_switch", "ml_score_replaced", "temperature_zero", "grandchild_backing",
+          "temp_feature_tail_changed"]
 COMPONENTS = {"real": ["dclab RTDCBase.__getitem__/__contains__, AncillaryFeature (hash, availability, priorities)",
                        "af_emodulus/af_basic/af_fl_max_ctc/af_image_contour/af_ml_class, PlugInFeature, temporary features",
                        "RTDC_Dict / RTDC_HDF5 / RTDC_Hierarchy"],
@@ -50,8 +51,11 @@ def plan(tier):
 
 def make_trace(seed, tier):
     r = seeds.rng(seed, "plan")
-    return {"knobs": {"n": r.choice([2, 7, 24]), "backing": r.choice(["dict", "dict", "file", "child"]),
-                      "with_temp": r.random() < 0.5, "with_images": r.random() < 0.5,
+    big = r.random() < 0.06
+    return {"knobs": {"n": 9000 + r.randrange(0, 3000) if big else r.choice([2, 7, 24]),
+                      "backing": r.choice(["dict", "dict", "file", "child", "grandchild"]) if not big else "dict",
+                      "big": big,
+                      "with_temp": r.random() < 0.5, "with_images": (r.random() < 0.5) and not big,
                       "ml_innate": r.random() < 0.5},
             "max_ops": r.choice([8, 20, 40]), "ops": None}
 
@@ -101,8 +105,13 @@ class World:
         self.temps = {}
         self.base = self.build_base()
         self.child = None
+        self.mid = None
         if k["backing"] == "child":
             self.child = dclab.new_dataset(self.base)
+        elif k["backing"] == "grandchild":
+            self.mid = dclab.new_dataset(self.base)
+            self.child = dclab.new_dataset(self.mid)
+            ctx.probe("grandchild_backing")
         self.read_before = set()
         self.last_edit_fresh = False
         self.last_edit = "none"
@@ -132,7 +141,10 @@ class World:
         for name, arr in self.temps.items():
             dclab.set_temporary_feature(fr, name, arr)
         if self.child is not None:
-            return dclab.new_dataset(fr), fr
+            ch = dclab.new_dataset(fr)
+            if self.mid is not None:
+                ch = dclab.new_dataset(ch)
+            return ch, fr
         return fr, fr
 
     # ---------------- generation ----------------
@@ -189,6 +201,8 @@ class World:
             return {"k": "refresh"}
         if x < 0.70:
             return {"k": "avail", "feat": r.choice(READ_FEATS)}
+        if self.k.get("big"):
+            return {"k": "read", "feat": r.choice(["c06_b", "c06_b", "c06_a", "area_um", "time", "deform", "ml_class"])}
         return {"k": "read", "feat": r.choice(READ_FEATS + ["emodulus", "emodulus", "area_um"])}
 
     # ---------------- execution ----------------
@@ -272,6 +286,13 @@ class World:
                 return
             lo, hi = (1, 2) if name == "tmp_c06" else (0.01, 0.99)
             vals = seeds.np_rng(op["dseed"], "tmp").uniform(lo, hi, size=self.n)
+            if name in self.temps and op["dseed"] % 3 == 0 and self.n > 4:
+                # only the last few events change (a block-wise identifier must still see it)
+                keep = self.temps[name].copy()
+                k_tail = 1 + op["dseed"] % min(100, self.n // 2)
+                keep[-k_tail:] = vals[-k_tail:]
+                vals = keep
+                ctx.probe("temp_feature_tail_changed")
             if name in self.temps:
                 ctx.probe("temp_feature_replaced")
                 if name.startswith("ml_score"):
@@ -431,5 +452,5 @@ def run(trace, ctx):
         if op is None:
             break
         w.execute(op)
-    w.read_and_check("emodulus")
+    w.read_and_check("emodulus" if not trace["knobs"].get("big") else "c06_b")
     ctx.info["sample"] = {"knobs": trace["knobs"], "ops": (trace.get("ops") or [])[:10]}
